@@ -2,6 +2,7 @@
 # Runs every claimed check (quick tier by default) against /repo and rewrites the evidence files.
 # usage: ./run_all.sh [quick|thorough] [IDs...]
 cd "$(dirname "$0")"
+mkdir -p .work
 TIER=${1:-quick}
 [ $# -gt 0 ] && shift
 IDS="$@"
